@@ -261,10 +261,59 @@ def run(ctx):
         ctx.check(not missing, "R4.5", where, f"{name.split(' in ')[0]}|sufficient",
                   f"{name}: the encode set lacks {[chr(x) if 32 < x < 127 else hex(x) for x in missing]}, so a value containing it reaches the handler altered — " + c07.missing_text(spec, missing),
                   instance=f"{name}: superset of the {len(need)} bytes the server decoders interpret")
+    # ---------------- R4.11 the cookie name of cookie auth is used verbatim by all four generators (macro client / macro server /
+    # codegen client / codegen server): the client writes `<name>=<token>` and the server looks for exactly that prefix, cookie
+    # names are case-sensitive — any normalisation on one side only makes the pair disagree
+    from .. import inline as _inl
+    PASS = {"deref", "as_str", "as_ref", "borrow", "clone", "to_owned", "to_string", "into", "from", "as_deref"}
+    SINK = {"new_display", "new_debug", "to_tokens", "append_all", "new"}
+    sites_ = []
+    for cn_ in ("conjure_macros", "conjure_codegen"):
+        cc_ = F.crate(cn_)
+        has_ = {(x.d.get("root") or x.id) if x.kind == "closure" else x.id for x in cc_.bodies if any(t["call"]["name"] in ("value", "cookie_name") for _, t in x.calls())}
+        for b0 in cc_.bodies:
+            if b0.kind not in ("fn", "assoc_fn") or b0.id.startswith(("conjure_codegen::types::", "conjure_codegen::example_types::")):
+                continue
+            fam0 = [b0] + cc_.closures_of(b0)
+            if b0.id not in has_ and not any(t["call"].get("local") and t["call"].get("id") in has_ for x in fam0 for _, t in x.calls()):
+                continue
+            eb = _inl.expand(cc_, b0, depth=2, pred=lambda cb: cb.d.get("vis") != "pub")
+            for x in [eb] + [y for y in cc_.closures_of(b0)]:
+                for bb, t in x.calls():
+                    nm = t["call"]["name"]
+                    is_name = nm == "cookie_name" and "types" in t["call"].get("def", "")
+                    if nm == "value" and "LitStr" in t["call"].get("def", ""):
+                        is_name = any("cookie_name" in str(s_) for s_ in Tracer(x, through_calls=True).sources(t["args"][0]))
+                    if not is_name:
+                        continue
+                    transforms, work, seen = [], [place_local(t["dest"])], set()
+                    while work:
+                        l_ = work.pop()
+                        if l_ in seen:
+                            continue
+                        seen.add(l_)
+                        for ubb, uj, it in dt.uses_of_local(x, l_):
+                            if uj == "T":
+                                if "call" not in it:
+                                    continue
+                                n2 = it["call"]["name"]
+                                if n2 in PASS:
+                                    work.append(place_local(it["dest"]))
+                                elif n2 not in SINK:
+                                    transforms.append(n2)
+                            elif "d" in it and ("ref" in it["r"] or "use" in it["r"] or "agg" in it["r"]):
+                                work.append(place_local(it["d"]))
+                    sites_.append((x, t, transforms))
+    for x, t, transforms in sites_:
+        ctx.check(not transforms, "R4.11", x.loc(t["ln"]), f"{x.path.split('::{closure')[0]}|cookie-name-verbatim",
+                  f"{x.path}: the cookie name passes through {transforms} before being written into the generated code; the other generators use it verbatim, so a client and a server generated from the same definition disagree on the cookie's name",
+                  instance=f"{x.path.split('::{closure')[0]}: cookie name used verbatim")
+    ctx.floor("R4.11", "uses of the auth cookie name in the generators", len(sites_), 2)
     # ---------------- R4.6 / R4.7 body reassembly and PLAIN parameter text (shared with C18 / C12)
-    from . import c18, c12, c03
+    from . import c18, c12, c03, c19
     ctx.include(c03, {"R3.6"}, "R4.9", "client and server generators must classify the return / argument type alike (204 shortcuts, decoders)")
     ctx.include(c07, {"R7.7", "R7.5"}, "R4.8", "each path argument must be written into the template segment of its own name and decoded by the inverse steps")
     ctx.include(c18, {"R18.5"}, "R4.6", "request and response bodies must reach the decoder complete (every chunk, until the stream ends)")
+    ctx.include(c19, {"R19.7"}, "R4.10", "an argument the client sent (an empty string included) must reach the handler as that value, never as an absent optional")
     ctx.include(c12, {"R12.1", "R12.2", "R12.3", "R12.4", "R12.5"}, "R4.7", "path / query / header arguments travel as PLAIN text and must parse back to the same value")
 
